@@ -65,17 +65,20 @@ def replay_kr(model, rows=2, exps=None, order=("So", "Sw", "Sg")):
                             "inputs": m}
 
 
-def replay_reject(model, rows=1):
+def replay_reject(model, rows=1, twice=False):
     import numpy as np
     names = PNAMES + [f"{s}{j}" for j in range(rows) for s in ("So", "Sw", "Sg")]
     m = model_floats(model, names, default={k: 0.0 for k in names})
     fp, params, sat = _real_call(m, rows)
-    try:
-        with np.errstate(all="ignore"):
-            fp.relative_permeabilities(sat, params)
-    except ValueError as ex:
-        return False, {"what": f"rejected as required: {ex}", "inputs": m}
-    return True, {"what": "inadmissible parameters / saturations accepted without an error", "inputs": m}
+    for attempt in range(2 if twice else 1):
+        try:
+            with np.errstate(all="ignore"):
+                fp.relative_permeabilities(sat, params)
+        except ValueError as ex:
+            last = ex
+            continue
+        return True, {"what": "inadmissible parameters / saturations accepted without an error" + (f" on call {attempt + 1} with the same arguments" if twice else ""), "inputs": m}
+    return False, {"what": f"rejected as required: {last}", "inputs": m}
 
 
 def replay_reject_twophase(model):
@@ -242,6 +245,16 @@ def job_reject(job):
         dom = dom + mk(vs)
         params = mod.RelPermParams(**{k: vs[k] for k in PNAMES})
         rec = SymRec({k: SymArray([vs[k + "0"]], "f8") for k in ("So", "Sw", "Sg")})
+        # a second call with the same inadmissible arguments is rejected like the first (nothing remembers them as checked)
+        def again():
+            try:
+                mod.relative_permeabilities(rec, params)
+            except ValueError:
+                pass
+            return mod.relative_permeabilities(rec, mod.RelPermParams(*tuple(params)))
+        for k, pr in enumerate(paths(job, again, dom, catch=(ValueError,), max_paths=64)):
+            if pr.exc is None:
+                job.prove(f"reject/{name}/accepted on a second call with the same arguments[path{k}]", pr.pc, bound="one saturation record", replay=(replay_reject, {"rows": 1, "twice": True}))
         res = paths(job, lambda: mod.relative_permeabilities(rec, params), dom, catch=(ValueError,), max_paths=64)
         raised = 0
         for k, pr in enumerate(res):
